@@ -127,7 +127,7 @@ def cv_c05(tier):
     return J
 
 # ---------------- muwait family ----------------
-MW_CORE = ['Mw1', 'Mr1', 'Mw2', 'Mw3', 'Mw4', 'Mw5', 'Mr2', 'Mr3']
+MW_CORE = ['Mw1', 'Mr1', 'Mw2', 'Mw3', 'Mw4', 'Mw5', 'Mw6', 'Mr2', 'Mr3']
 
 def mw_c06(tier):
     J = []
@@ -141,6 +141,16 @@ def mw_c06(tier):
         for b in ws[i:]:
             for k in ['@2 A B', '@2 B A', '@2 Z A B', '@2 A z B']:
                 J.append(('|'.join([a, b, k]), 2, 0))
+    # every ordered triple of conditions (writers), one variable set: the same-condition grouping must never
+    # hide a waiter whose condition differs in function, argument or eq from its neighbours
+    conds = '123456'
+    for x in conds:
+        for y in conds:
+            for z in conds:
+                for k in ('@3 B', '@3 A'):
+                    J.append(('Mw%s|Mw%s|Mw%s|%s' % (x, y, z, k), 1 if tier == 'quick' else 2, 0))
+    for p in ['Mr1|Mw6|Mr5|@3 B', 'Mw3|Mr6|Mw5|@3 B', 'Mr6|Mr1|Mw5|@3 A', 'Mr4|Mw1|Mr6|@3 A', 'Mw6|Mr6|Mw1|@3 B A']:
+        J.append((p, 1 if tier == 'quick' else 2, 0))
     # designated-waker / all-false paths: a woken waiter whose own section ends without wake-up
     for p in ['Mw1|Mw2z|@2 B|@2 A', 'Mr1|Mw2z|@2 B|@2 A', 'Mw1|Mr2|@2 A|@2 B', 'Mw1|Mw3|Mw4|@3 A', 'Mr1|Mr3|Mw2|@3 B A', 'Mw1|Mw2|Mw1|@3 A B',
               'Mw1|V|@2 S A', 'Mr1|V|@2 A|@2 S', 'Mw2|Mw1|@2 z|@2 A B', 'Mw1|Mw1|@2 R|@2 A', 'Mr1|Mr1|@2 R|@2 A', 'Mw1|Mw5|@2 Z|@2 A']:
@@ -237,7 +247,7 @@ def note_c08(tier):
         if tier == 'thorough' or h.count('p') == 0:
             for l in live:
                 J.append(('%s:n%s %s' % (h, l, ' '.join('i' + x for x in live)), 0, 0))
-    conc = ['----:nR|iG|wG', '----:nC|iG iR|wG', '----:nC|wG|wS', '--1-:wG|iG|iC', '-1--:wG|weG|iR', '----:nR|nR|iC', '----:nR|nC|wG', '----:nC|nG|iG iG',
+    conc = ['----:nR|kR', '--xx:nR|kR|kR', '----:nC|kC|wG', '----:nR|kC|kS', '--xx:nR|kR|iR', '----:nR|iG|wG', '----:nC|iG iR|wG', '----:nC|wG|wS', '--1-:wG|iG|iC', '-1--:wG|weG|iR', '----:nR|nR|iC', '----:nR|nC|wG', '----:nC|nG|iG iG',
             '----:nR|kC|iG', '----:nG|kC|wG', '-2-1:wS|wdR|iS', '----:nR|wC|wG|wS', '--2-:nC|wG|wdG', '1---:wG|wS|iR', '----:iG iG|nR|iG']
     for p in conc:
         J.append((p, (2 if p.count('|') < 3 else 1) if tier == 'quick' else (3 if p.count('|') < 3 else 2), 1 if any(c in p.split(':')[0] for c in '12') or 'wd' in p or 'we' in p else 0))
@@ -281,4 +291,7 @@ def refcnt_programs(tier):
     for a, b in itertools.combinations_with_replacement(th, 2): J.append(('%s|%s' % (a, b), 99 if tier == 'thorough' else 5, 0))
     for c in itertools.combinations_with_replacement(th, 3): J.append(('|'.join(c), 2 if tier == 'quick' else 3, 0))
     for p in ['L D|L D|D|D', 'R D|R D|L D|D', 'D|D|D|Du', 'L D|T D|R Du|D']: J.append((p, 1 if tier == 'quick' else 2, 0))
+    # a conditional wait that times out (leaving the queue empty) right before the unlock that drops the reference
+    for p in ['Dm|D', 'Dm|Du', 'Dm|L D', 'Dm|R D', 'M D|D', 'M D|L D', 'Dm|Dm', 'M Dm|D']: J.append((p, 3 if tier == 'quick' else 5, 1))
+    for p in ['Dm|D|D', 'Dm|L D|D', 'M D|D|R D', 'Dm|Dm|D']: J.append((p, 2, 1))
     return J
